@@ -257,6 +257,8 @@ pub fn reflink(infd: &File, outfd: &File) -> Result<bool> {
         let oserr = io::Error::last_os_error();
         match oserr.raw_os_error() {
             Some(libc::EOPNOTSUPP)
+                | Some(libc::ENOTTY)
+                | Some(libc::ENOSYS)
                 | Some(libc::EINVAL)
                 | Some(libc::EXDEV)
                 | Some(libc::ETXTBSY) =>
